@@ -101,7 +101,7 @@ func (r *c07Rig) request(c *c07Case) (*z80.Interrupt, int, int) {
 	case "im1":
 		return z80.IM1Interrupt(), 1, 0
 	case "im2":
-		return z80.IM2Interrupt(uint8(c.Arg) &^ 1), 2, 0
+		return z80.IM2Interrupt(uint8(c.Arg)), 2, 0
 	case "im0rst":
 		return z80.IM0Interrupt(uint8(0xC7 | c.Arg<<3)), 0, 1
 	default:
@@ -278,7 +278,8 @@ func TestC07(t *testing.T) {
 	var focus *c07Case
 	rapid.Check(t, func(t *rapid.T) {
 		p := genProgram(t, env.Pick(14, 24))
-		vec := int(rapid.Uint8().Draw(t, "vector")) &^ 1
+		// the project ignores the least significant bit of the vector byte; odd bytes are drawn too
+		vec := int(rapid.Uint8().Draw(t, "vector"))
 		rst := rapid.IntRange(0, 7).Draw(t, "rst")
 		if rst == 0 && p.L.NoRST0 {
 			rst = 7
@@ -292,6 +293,24 @@ func TestC07(t *testing.T) {
 		}
 		for tag := range p.Tags {
 			col.Label("program:" + tag)
+		}
+		if focus != nil {
+			// shrinking: stay on the failing kind / injection point, with the matching reference run
+			c := *focus
+			c.Prog = *p
+			_, im, _ := rig.request(&c)
+			ref := rig.undisturbed(p, im)
+			if !ref.valid {
+				return
+			}
+			if c.K > ref.n+2 {
+				c.K = ref.n + 2
+			}
+			o := rig.inject(&c, &ref)
+			if o.msg != "" && !o.known {
+				violation(t, "C07", "transparent", c, "same outcome as the uninterrupted run", c.Kind+fmt.Sprintf(" at k=%d: ", c.K)+o.msg)
+			}
+			return
 		}
 		for _, kind := range []string{"nmi", "im1", "im2", "im0rst", "im0call"} {
 			c := c07Case{Prog: *p, Kind: kind}
@@ -310,26 +329,16 @@ func TestC07(t *testing.T) {
 			col.LabelN("program-steps", int64(ref.n))
 			for k := 0; k <= ref.n+2; k++ {
 				c.K = k
-				if focus != nil {
-					c = *focus
-					c.Prog = *p
-				}
 				o := rig.inject(&c, &ref)
 				col.Eval(1)
 				if o.known {
 					col.Known(sigIm0, c06Known[sigIm0])
-					if focus != nil {
-						return
-					}
 					continue
 				}
 				if o.msg != "" {
 					cc := c
 					focus = &cc
 					violation(t, "C07", "transparent", c, "same outcome as the uninterrupted run", c.Kind+fmt.Sprintf(" at k=%d: ", c.K)+o.msg)
-				}
-				if focus != nil {
-					return
 				}
 				for _, l := range o.labels {
 					col.Label(l)
